@@ -495,9 +495,21 @@ func (c01) Exec(c *core.Case) (out *core.Outcome) {
 				} else {
 					o.Probe("part_copied")
 					var cr struct {
-						ETag string
+						ETag              string
+						ChecksumCRC32     string
+						ChecksumCRC32C    string
+						ChecksumSHA1      string
+						ChecksumSHA256    string
+						ChecksumCRC64NVME string
 					}
 					xml.Unmarshal(pr.Resp.Body, &cr)
+					// the checksum the gateway reports (and keeps) for the copied part is the checksum of the
+					// bytes that were copied
+					for a, got := range map[string]string{"crc32": cr.ChecksumCRC32, "crc32c": cr.ChecksumCRC32C, "sha1": cr.ChecksumSHA1, "sha256": cr.ChecksumSHA256, "crc64nvme": cr.ChecksumCRC64NVME} {
+						if got != "" && got != s3c.Checksum(a, src.Data[:n]) {
+							viol(op, i, "partcopy", fmt.Sprintf("UploadPartCopy of %d of the %d bytes of %q reports the part checksum %s=%s, the copied bytes have %s", n, len(src.Data), p.Keys[op.CopyFrom], a, got, s3c.Checksum(a, src.Data[:n])))
+						}
+					}
 					parts = append(parts, src.Data[:n])
 					cp := s3c.CPart{N: len(op.Parts) + 1, ETag: cr.ETag}
 					if op.Algo != "" {
